@@ -47,6 +47,8 @@ func main() {
 		fs.BoolVar(&o.Pin, "pin", false, "rewrite the pinned obligation counts for this property")
 		fs.Parse(os.Args[2:])
 		os.Exit(check.Run(o))
+	case "keys":
+		keys(os.Args[2:])
 	case "list":
 		fs := flag.NewFlagSet("list", flag.ExitOnError)
 		repo := fs.String("repo", "/repo", "")
@@ -93,6 +95,55 @@ func dump(args []string) {
 		seen[f] = true
 		if strings.Contains(f.String(), args[2]) {
 			f.WriteTo(os.Stdout)
+		}
+		for _, a := range f.AnonFuncs {
+			walk(a)
+		}
+	}
+	for _, m := range sp.Members {
+		switch m := m.(type) {
+		case *ssa.Function:
+			walk(m)
+		case *ssa.Type:
+			for _, f := range methodsOf(p, m) {
+				walk(f)
+			}
+		}
+	}
+}
+
+// keys prints the canonical callee keys of every call in the functions matching a substring.
+func keys(args []string) {
+	p, err := load.Load(args[0])
+	if err != nil {
+		fmt.Fprintln(os.Stderr, err)
+		os.Exit(2)
+	}
+	sp := p.SSAPkg[p.Module+"/"+args[1]]
+	seen := map[*ssa.Function]bool{}
+	var walk func(f *ssa.Function)
+	walk = func(f *ssa.Function) {
+		if f == nil || seen[f] {
+			return
+		}
+		seen[f] = true
+		if strings.Contains(f.String(), args[2]) {
+			fmt.Println("==", vc.FuncKey(f))
+			for _, b := range f.Blocks {
+				for _, ins := range b.Instrs {
+					if c, ok := ins.(ssa.CallInstruction); ok {
+						cc := c.Common()
+						switch {
+						case cc.IsInvoke():
+							fmt.Println("   invoke", vc.MethodKey(cc.Method))
+						case cc.StaticCallee() != nil:
+							fmt.Println("   static", vc.FuncKey(cc.StaticCallee()))
+						default:
+							fmt.Println("   dynamic/builtin", cc.Value.Name())
+						}
+					}
+				}
+			}
 		}
 		for _, a := range f.AnonFuncs {
 			walk(a)
